@@ -2290,10 +2290,17 @@ _patch_iter()
 
 # ---------------------------------------------------------------------- helpers
 def _text(node):
-    try:
-        return ast.unparse(node)
-    except Exception:  # pragma: no cover
-        return "?"
+    t = getattr(node, "_bsa_text", None)
+    if t is None:
+        try:
+            t = ast.unparse(node)
+        except Exception:  # pragma: no cover
+            t = "?"
+        try:
+            node._bsa_text = t
+        except Exception:  # pragma: no cover
+            pass
+    return t
 
 
 def _short(v):
@@ -2358,7 +2365,14 @@ def _shape(target, tag):
 def _as_load(t):
     import copy
 
+    cached = getattr(t, "_bsa_load", None)
+    if cached is not None:
+        return cached
     t2 = copy.deepcopy(t)
+    try:
+        t._bsa_load = t2
+    except Exception:  # pragma: no cover
+        pass
     for n in ast.walk(t2):
         if hasattr(n, "ctx"):
             n.ctx = ast.Load()
@@ -2384,6 +2398,13 @@ def _is_property(f):
 def _is_generator(fnode):
     if isinstance(fnode, ast.Lambda):
         return False
+    r = getattr(fnode, "_bsa_is_gen", None)
+    if r is None:
+        r = fnode._bsa_is_gen = _is_generator_uncached(fnode)
+    return r
+
+
+def _is_generator_uncached(fnode):
     stack = list(fnode.body)
     while stack:
         n = stack.pop()
